@@ -1621,6 +1621,9 @@ void Validator::ValidatorImpl::validateMath(const std::string &input, const Comp
         // children/siblings, type, etc.
 
         mathNode = mathmlDoc->rootNode();
+        if (mathNode == nullptr) {
+            return;
+        }
 
         auto childCount = mathmlChildCount(mathNode);
 
